@@ -115,7 +115,7 @@ func arityOfArriving(v ssa.Value, root func(ssa.Value) bool) bool {
 		return false
 	}
 	c, ok := f.X.(*ssa.Call)
-	if !ok || c.Call.StaticCallee() == nil || c.Call.StaticCallee().Name() != "getInfixOpInfo" {
+	if !ok || c.Call.StaticCallee() == nil || nm(c.Call.StaticCallee()) != "getInfixOpInfo" {
 		return false
 	}
 	arg := c.Call.Args[len(c.Call.Args)-1]
@@ -146,7 +146,7 @@ func ruleReduceGate(w *World, r *Report) {
 	n := 0
 	EachInstr(reduce, func(in ssa.Instruction) {
 		c, ok := in.(*ssa.Call)
-		if !ok || c.Call.StaticCallee() == nil || c.Call.StaticCallee().Name() != "buildParentNode" {
+		if !ok || c.Call.StaticCallee() == nil || nm(c.Call.StaticCallee()) != "buildParentNode" {
 			return
 		}
 		n++
@@ -225,7 +225,7 @@ func rulePrefixOp(w *World, r *Report, pie, cmp, reduce *ssa.Function) {
 	var car ssa.Value
 	EachInstr(pie, func(in ssa.Instruction) {
 		if ex, ok := in.(*ssa.Extract); ok && ex.Index == 0 {
-			if c, ok := ex.Tuple.(*ssa.Call); ok && c.Call.StaticCallee() != nil && c.Call.StaticCallee().Name() == "next" {
+			if c, ok := ex.Tuple.(*ssa.Call); ok && c.Call.StaticCallee() != nil && nm(c.Call.StaticCallee()) == "next" {
 				car = ex
 			}
 		}
@@ -349,7 +349,7 @@ func ruleInfixWhole(w *World, r *Report) {
 		if !ok {
 			continue
 		}
-		if c, callee := staticCallee(iff.Cond); c != nil && callee != nil && callee.Name() == "hasNext" {
+		if c, callee := staticCallee(iff.Cond); c != nil && callee != nil && nm(callee) == "hasNext" {
 			if hdr == nil || b.Dominates(hdr) {
 				hdr = b
 			}
